@@ -50,7 +50,11 @@ class BidsFileGroup:
         for bids_obj in self.datafile_dict.values():
             sidecar_list = self.get_sidecars_from_path(bids_obj)
             if sidecar_list:
-                bids_obj.sidecar = self.sidecar_dict[sidecar_list[-1]]
+                # The merge of every sidecar that applies to *this* file (the deepest sidecar's own merge was
+                # computed for that sidecar's entities and can lack a shallower file that applies here).
+                merged_sidecar = BidsSidecarFile(sidecar_list[-1])
+                merged_sidecar.set_contents(content_info=sidecar_list)
+                bids_obj.sidecar = merged_sidecar
 
     def get_sidecars_from_path(self, obj):
         """ Return applicable sidecars for the object.
